@@ -936,12 +936,20 @@ func (s *UtxoStore) VerifWF() bool { return s != nil && s.bucketMeta != nil }
 
 // ---- C18: in these loops a storage/decoding error assigned to the function's error variable ends the function; no
 // error is pending at a loop head (it could otherwise be overwritten by the next iteration's success)
+// (C19: callers index the returned transaction's outputs with the requested index -- a transaction is looked up only
+// from a credit record of exactly the requested outpoint index; key codecs under contract, every other callee unknown)
 //@ func (*TxStore).ExistsTx
-//@   props C18
+//@   props C18 C19
 //@   nopanic off
 //@   modifies *
-//@   only nothing
+//@   only existsUnspent readRawCreditKey FetchBucket
+//@   dbonly CurrentKeystore Name getCreditsByTxHash
+// the credit key built by existsUnspent always has the 76-byte form readRawCreditKey accepts: one defensive return
+//@   dead returns 1
+//@   requires s != nil && s.bucketMeta != nil && s.ksmgr != nil && tx != nil && out != nil
 //@   loop#1 invariant[C18] err == nil
+//@   loop#1 invariant !found && cred.block != nil
+//@   at "if found {..." assert[C19] found ==> cred.outPoint.Index == out.Index
 //@ func (*SyncStore).GetAllWalletStatus
 //@   props C18
 //@   nopanic off
